@@ -4,7 +4,7 @@ MICRO = {
 PROPS = {
     'C09': dict(
         micro=['cindex'],
-        modelled="endpoint.rs: ConnectionIndex (connection_ids_initial, connection_ids, incoming_connection_remotes, outgoing_connection_remotes, connection_reset_tokens; insert_initial_incoming, remove_initial, insert_initial, insert_conn, retire, remove, get = the routing cascade), ResetTokenTable, ConnectionMeta, both Slabs (slab 0.4 free list), Endpoint::{handle_event (NeedIdentifiers, RetireConnectionId, ResetToken, Drained), send_new_identifiers, new_cid (CID bytes explicit), cids_exhausted, connect (incl. TLS start_session error), handle up to the routing decision + the table updates of handle_first_packet, accept (ok / stale / CIDs exhausted / authentication failure / first packet rejected), refuse, ignore, clean_up_incoming, add_connection (incl. preferred-address CID)}; executed on the REAL Endpoint with stub cryptography",
+        modelled="endpoint.rs: ConnectionIndex (connection_ids_initial, connection_ids, incoming_connection_remotes, outgoing_connection_remotes, connection_reset_tokens; insert_initial_incoming, remove_initial, insert_initial, insert_conn, retire, remove (ownership-checked), get = the routing cascade), ResetTokenTable, ConnectionMeta, both Slabs (slab 0.4 free list), Endpoint::{handle_event (NeedIdentifiers, RetireConnectionId, ResetToken, Drained), send_new_identifiers, new_cid (CID bytes explicit), cids_exhausted, connect (incl. the TLS start_session error exit, which retires the CID), handle up to the routing decision + the table updates of handle_first_packet, accept (ok / stale / CIDs exhausted / authentication failure / first packet rejected), refuse, ignore, clean_up_incoming, add_connection (incl. preferred-address CID)}; executed on the REAL Endpoint with stub cryptography",
         not_modelled="header decoding (PartialDecode: the executor checks the real decoder against the declared DCID/kind of every datagram), cryptography/TLS (inputs), the Connection state machine and CidState/CidQueue (connection side of CID bookkeeping), retry(), the size/saturation/version/token exits of handle_first_packet, IncomingBuffer byte accounting, stateless-reset emission, quinn/src/endpoint.rs ConnectionSet",
     ),
 }
